@@ -76,7 +76,9 @@ Print Assumptions C14_run_depends_on_environment_only.
     to == on the rationals (position, depth class, age, scalar) —; the same number of particles was released;
     and the two runs wrote the same number of records, each at the same step with the same (pid, row, values).
     The releaser of the set-up works in either mode ([s_cont]): discrete release of the table rows at their
-    times, or continuous release (discretize() on the frequency grid; tables satisfying C04's [cont_ok]). *)
+    times, or continuous release (discretize() on the frequency grid; tables satisfying C04's [cont_ok]).
+    The physics of the set-up includes LAND cells along the particle line ([s_land]): u-faces next to land
+    masked to zero, moves onto land cancelled, death outside the valid interval (stated in Props/C09.v). *)
 Theorem C14_closed_shift : forall s d, setup_ok s = true ->
   setup_ok (shift_setup s d) = true /\ srel pv pv Z pv_eq (m_run s) (m_run (shift_setup s d)).
 Proof. exact shift_invariance. Qed.
@@ -98,6 +100,31 @@ Example C14_closed_ex :
   show_run (m_run ex_setup) =
     [(0, [(0, 0, 5%Q, 0, 40%Q)]); (2, [(0, 0, (27 # 8)%Q, 2, 30%Q); (1, 1, 6%Q, 0, 30%Q); (2, 1, 6%Q, 0, 30%Q)]);
      (4, [(0, 0, (21 # 8)%Q, 4, 20%Q); (1, 1, (45 # 8)%Q, 2, 20%Q); (2, 1, (45 # 8)%Q, 2, 20%Q)])].
+Proof. vm_compute. repeat split. Qed.
+
+(** non-vacuity, LAND: [ex_setup_land] of Model/Setup.v has land in cell 4.  The particle released at x = 5 feels
+    half the flow (one of its two u-faces is masked); its first two moves would end in the land cell and are
+    CANCELLED, the third is made and the particle creeps towards the masked face; without the land the same
+    particle feels the whole flow, moves at once and leaves the valid interval in its third move *)
+Definition xs_of (r : sim pv Z) : list (Z * list Q) :=
+  map (fun x : rec pv => (rstep x, map (fun y : Z * Z * pv => Qred (vx (snd y))) (rrows x))) (recs r).
+Definition no_land (s : setup) : setup :=
+  {| s_tk := s_tk s; s_files := s_files s; s_tab := s_tab s; s_cont := s_cont s; s_period := s_period s;
+     s_dtdx := s_dtdx s; s_lo := s_lo s; s_hi := s_hi s; s_life := s_life s; s_cfac := s_cfac s; s_land := [] |}.
+Example C14_closed_land_ex :
+  s_land ex_setup_land = [4] /\ setup_ok ex_setup_land = true /\ setup_ok (shift_setup ex_setup_land 777) = true /\
+  show_run (m_run (shift_setup ex_setup_land 777)) = show_run (m_run ex_setup_land) /\
+  show_run (sp_run ex_setup_land) = show_run (m_run ex_setup_land) /\
+  m_u ex_setup_land 0 = (-15)%Q /\
+  Qred (felt ex_setup_land (-15) 5) = (-15 # 2)%Q /\ Qred (felt ex_setup_land (-15) 6) = (-15)%Q /\
+  move ex_setup_land (-15) {| vx := 5; vcls := 0; vage := 0; vtemp := 0 |} 0 =
+    ({| vx := 5; vcls := 0; vage := 0; vtemp := 0 |}, true) /\
+  xs_of (m_run ex_setup_land) =
+    [(0, [5%Q]); (1, [5%Q]); (2, [5%Q; 6%Q; 6%Q]); (3, [(73 # 16)%Q; (89 # 16)%Q; (89 # 16)%Q]);
+     (4, [(579 # 128)%Q; (21 # 4)%Q; (21 # 4)%Q]); (5, [(4623 # 1024)%Q; (327 # 64)%Q; (327 # 64)%Q])] /\
+  xs_of (m_run (no_land ex_setup_land)) =
+    [(0, [5%Q]); (1, [(25 # 8)%Q]); (2, [(7 # 4)%Q; 6%Q; 6%Q]); (3, [(89 # 16)%Q; (89 # 16)%Q]);
+     (4, [(21 # 4)%Q; (21 # 4)%Q]); (5, [(81 # 16)%Q; (81 # 16)%Q])].
 Proof. vm_compute. repeat split. Qed.
 
 (** non-vacuity, continuous release: the forward set-up [ex_setup_cont] of Model/Setup.v releases every 1200 s on
